@@ -352,3 +352,36 @@ func (e *Exec) dataChoice(n int) int {
 	e.Trace = append(e.Trace, Point{Enabled: n, Chosen: choice, RunnerEnabled: false, Key: e.key(), Who: e.cur.name + ":select-among-ready"})
 	return choice
 }
+
+// Pool stands in for sync.Pool: a last-in first-out free list that never
+// drops anything (one of the behaviours sync.Pool may show, and the one under
+// which an object that comes back unclean is seen again at once). Get and Put
+// are scheduling points through the mutex.
+type Pool struct {
+	New   func() any
+	m     Mutex
+	items []any
+}
+
+func (p *Pool) Get() any {
+	p.m.Lock()
+	defer p.m.Unlock()
+	if n := len(p.items); n > 0 {
+		x := p.items[n-1]
+		p.items = p.items[:n-1]
+		return x
+	}
+	if p.New != nil {
+		return p.New()
+	}
+	return nil
+}
+
+func (p *Pool) Put(x any) {
+	if x == nil {
+		return
+	}
+	p.m.Lock()
+	p.items = append(p.items, x)
+	p.m.Unlock()
+}
